@@ -2,6 +2,7 @@ package main
 
 import (
 	"fmt"
+	"os"
 	"go/token"
 	"go/types"
 	"strings"
@@ -121,6 +122,9 @@ func (vc *VC) callMods(c *ssa.CallCommon, li *loopInfo) {
 	if key != "" && isPureExternal(key) {
 		return
 	}
+	if cfn != nil && vc.isLeafGetter(cfn) {
+		return
+	}
 	_ = disp
 	li.modAll = true
 }
@@ -163,6 +167,23 @@ func (vc *VC) doCall(c *ssa.CallCommon, v ssa.Value, st *State, pos token.Pos) *
 	for _, a := range c.Args {
 		args = append(args, vc.val(a))
 	}
+	if vc.fc != nil && vc.inlineDepth == 0 {
+		for i, cp := range vc.fc.CallPres {
+			if !strings.Contains(key, cp.Callee) && !(fn != nil && strings.Contains(fn.String(), cp.Callee)) {
+				continue
+			}
+			env := vc.newEnv(st, vc.entrySt)
+			for j, a := range args {
+				env.vars[fmt.Sprintf("arg%d", j)] = a
+			}
+			label := cp.C.Label
+			if label == "" {
+				label = fmt.Sprintf("callpre%d", i)
+			}
+			vc.oblige("callpre", cp.Callee+":"+label, vc.trBool(cp.C.E, env), pos)
+			vc.callPreHit[i]++
+		}
+	}
 	if h := vc.specialCall(key, c, args, v, st, pos); h != nil {
 		return h
 	}
@@ -184,7 +205,9 @@ func (vc *VC) doCall(c *ssa.CallCommon, v ssa.Value, st *State, pos token.Pos) *
 	if fn == nil && !c.IsInvoke() {
 		vc.assumeNote("dynamic call in " + vc.name + ": all heaps havocked")
 	}
-	_ = disp
+	if os.Getenv("GOVC_DEBUG") != "" {
+		fmt.Fprintf(os.Stderr, "HAVOC-ALL in %s: call to %s (key %q)\n", vc.name, disp, key)
+	}
 	vc.havocAll(st)
 	return vc.havocResult(v, c, st)
 }
@@ -327,7 +350,7 @@ func (vc *VC) modTargetKeys(fc *FuncContract, m string) []string {
 			vc.heapKeySort("#closed", types.Typ[types.Bool])
 			return []string{"#closed"}
 		case "heap":
-			return []string{x.Args[0].String()}
+			return []string{vc.resolveHeapKey(x.Args[0])}
 		}
 	}
 	// type-directed: evaluate in a throw-away environment to find the key
@@ -438,7 +461,7 @@ func (vc *VC) modRegions(fc *FuncContract, env *Env) (regions []modRegion, all b
 				regions = append(regions, modRegion{"#closed", func(l string) string { return eq(l, a.S) }})
 				continue
 			case "heap":
-				regions = append(regions, modRegion{x.Args[0].String(), func(l string) string { return "true" }})
+				regions = append(regions, modRegion{vc.resolveHeapKey(x.Args[0]), func(l string) string { return "true" }})
 				continue
 			case "mapof":
 				a := vc.tr(x.Args[0], env)
@@ -881,4 +904,38 @@ func (vc *VC) inlineCall(fn *ssa.Function, args []TV, v ssa.Value, st *State) *T
 		vc.instr(ins, st)
 	}
 	return res
+}
+
+// resolveHeapKey: heap("RespValue.Text") names a heap key by (suffix of) its name.
+func (vc *VC) resolveHeapKey(e Expr) string {
+	name := e.String()
+	if es, ok := e.(*EStr); ok {
+		name = es.Val
+	}
+	if _, ok := vc.heapSort[name]; ok {
+		return name
+	}
+	for _, k := range sortedKeys(vc.heapSort) {
+		if strings.HasSuffix(k, "."+name) || strings.HasSuffix(k, "/"+name) {
+			return k
+		}
+	}
+	// not seen yet: try struct types of the repository
+	if i := strings.LastIndex(name, "."); i > 0 {
+		if t := vc.prog.typeByName(name[:i]); t != nil {
+			if st, ok := t.Underlying().(*types.Struct); ok {
+				for j := 0; j < st.NumFields(); j++ {
+					if st.Field(j).Name() == name[i+1:] {
+						k := fieldKey(t, j)
+						vc.heapKeySort(k, st.Field(j).Type())
+						return k
+					}
+				}
+			}
+		}
+	}
+	if name == "[]uint8" {
+		vc.heapKeySort(name, types.Typ[types.Byte])
+	}
+	return name
 }
